@@ -268,6 +268,7 @@ class mm_reader {
                 // line already holds the matrix sizes
                 is.clear(); is.str(line);
                 precondition(is >> n >> m, format_error());
+                precondition(n >= 0 && m >= 0, format_error("negative size"));
             }
 
             if (row_beg < 0) row_beg = 0;
